@@ -6,6 +6,8 @@
 From Coq Require Import List ZArith QArith Bool.
 From FV Require Import Base Static.
 From FVP Require Import Static_proofs.
+From FV Require Sched C20Mix.
+From FVP Require Sched_proofs.
 Import ListNotations.
 Open Scope Z_scope.
 
@@ -194,7 +196,35 @@ Example C20_static_output_spill_nonvacuous :
   = [(XNone, (0, 0)); (XPush (Ok tt), (1, 2)); (XPush (Err EStatic), (1, 2)); (XGet (Ok 1), (1, 2))]%nat.
 Proof. vm_compute. reflexivity. Qed.
 
+(** Scheduler level (model FV.Sched; the correspondence check of C20 runs compositions with pull-based components
+    against it, [C20Mix.c20_check2]).  Whenever the driver advances a time component [u], every dependency of [u] is
+    served for [u]'s announced time: a time-stepped source has published at or beyond the time the link needs, and a
+    PULL-BASED source is in turn served — to any nesting depth — for exactly the time [lt] that will reach it through
+    the link (after the delay adapters on the link), not for the consumer's own time. *)
+Theorem C20_sched_through_pull :
+  forall fuel cs st acc c chain tgt u st' acc' e,
+    Sched.update_rec fuel cs st acc c chain tgt = Sched.UUpdated u st' acc' e ->
+    Sched_proofs.servedn fuel cs st u (Sched.next_time cs st u).
+Proof.
+  intros fuel cs st acc c chain tgt u st' acc' e H.
+  destruct (Sched_proofs.update_rec_props fuel cs st acc c chain tgt) as [_ HB].
+  destruct (HB _ _ _ _ H) as [_ [_ [Hs _]]]. exact Hs.
+Qed.
+
+(** ... and then no pull of the update, however deep through pull-based components, fails for lack of data. *)
+Theorem C20_sched_pulls_succeed :
+  forall cs, Sched_proofs.wf cs -> forall fuel st acc c chain tgt u st' acc' e,
+    Sched_proofs.Inv cs st ->
+    Sched.update_rec fuel cs st acc c chain tgt = Sched.UUpdated u st' acc' e ->
+    e <> Some Sched.ETime /\ e <> Some Sched.ENoData.
+Proof.
+  intros cs W fuel st acc c chain tgt u st' acc' e Hinv H.
+  destruct (Sched_proofs.update_rec_ok cs W _ _ _ _ _ _ _ _ _ _ Hinv H) as [_ [_ [G _]]]. exact G.
+Qed.
+
 Print Assumptions C20_static_output.
+Print Assumptions C20_sched_through_pull.
+Print Assumptions C20_sched_pulls_succeed.
 Print Assumptions C20_static_output_spill_invisible.
 Print Assumptions C20_static_input.
 Print Assumptions C20_callback_time.
